@@ -2,6 +2,7 @@ package drive
 
 import (
 	"context"
+	"runtime"
 	"strings"
 	"sync"
 	"time"
@@ -44,6 +45,15 @@ func memberOf(sc *SetScenario, node string) int {
 	return -1
 }
 
+func isMsgTarget(sc *SetScenario, node string) bool {
+	for _, f := range sc.Flows {
+		if f.Dst == node {
+			return true
+		}
+	}
+	return false
+}
+
 func SetRun(run int, sc SetScenario, T time.Duration) []SetRec {
 	var mu sync.Mutex
 	var log []SetRec
@@ -76,6 +86,7 @@ func SetRun(run int, sc SetScenario, T time.Duration) []SetRec {
 	ch := make(chan tracing.ITrace, 8192)
 	ps.Tracer().SubscribeChannel(ch)
 	reqn := map[string]int{}
+	delivered, observedN, early := map[string]int{}, map[string]int{}, map[string]int{}
 	nexec := 0
 	inited := map[int]bool{}
 	for i, m := range sc.Members {
@@ -157,9 +168,15 @@ func SetRun(run int, sc SetScenario, T time.Duration) []SetRec {
 							if f.Src == id {
 								if ti := memberOf(&sc, f.Dst); ti >= 0 && target == "catch" {
 									touch(ti)
+									if early[f.Dst] > 0 {
+										// already accounted for when the catch event reported the event
+										early[f.Dst]--
+										continue
+									}
 									for _, e := range sc.Members[ti].P.Node(f.Dst).Evs {
 										add(ti, Rec{Ev: "deliverx", Kind: e.K, Node: e.Ref})
 									}
+									delivered[f.Dst]++
 								}
 							}
 						}
@@ -182,6 +199,18 @@ func SetRun(run int, sc SetScenario, T time.Duration) []SetRec {
 			case bpmn.EventObservedTrace:
 				if idp, ok := t.Node.Id(); ok {
 					if pi := memberOf(&sc, *idp); pi >= 0 {
+						// The member processes reach this observer through separate relays, so the
+						// thrower's flow trace (from which the delivery record is derived) may arrive
+						// after the catcher's report of the very event it caused.  Causally the
+						// delivery precedes the observation: record it first.
+						observedN[*idp]++
+						if isMsgTarget(&sc, *idp) && observedN[*idp] > delivered[*idp] {
+							for _, e := range sc.Members[pi].P.Node(*idp).Evs {
+								add(pi, Rec{Ev: "deliverx", Kind: e.K, Node: e.Ref})
+							}
+							delivered[*idp]++
+							early[*idp]++
+						}
 						k, ref := evName(t.Event)
 						add(pi, Rec{Ev: "observed", Node: *idp, Kind: k, Flows: []string{ref}})
 					}
@@ -221,6 +250,47 @@ func SetRun(run int, sc SetScenario, T time.Duration) []SetRec {
 			add(-1, Rec{Ev: "setwait", Ok: res[i], N: ms})
 		}
 		mu.Unlock()
+	}
+	// A wait reported completion: the cease traces it implies reach this observer through
+	// relays, i.e. some time later; wait for them (bounded by T) instead of guessing a delay.
+	anyTrue := false
+	mu.Lock()
+	for _, r := range log {
+		if r.Ev == "setwait" && r.Ok {
+			anyTrue = true
+		}
+	}
+	mu.Unlock()
+	if anyTrue {
+		deadline := time.Now().Add(T)
+		for time.Now().Before(deadline) {
+			mu.Lock()
+			// processes that were started: the executable ones plus one per throw into a start event
+			nRun, nCease, set := nexec, 0, false
+			for _, r := range log {
+				switch {
+				case r.Ev == "throw" && r.Kind == "start":
+					nRun++
+				case r.Ev == "pcease":
+					nCease++
+				case r.Ev == "ceaseset":
+					set = true
+				}
+			}
+			mu.Unlock()
+			if set && nCease >= nRun {
+				break
+			}
+			time.Sleep(2 * time.Millisecond)
+		}
+		if !time.Now().Before(deadline) {
+			// what is everybody doing? (kept in the replay file; not part of the validated stream)
+			buf := make([]byte, 1<<20)
+			buf = buf[:runtime.Stack(buf, true)]
+			mu.Lock()
+			add(-2, Rec{Ev: "dump", Kind: string(buf)})
+			mu.Unlock()
+		}
 	}
 	time.Sleep(20 * time.Millisecond)
 	mu.Lock()
